@@ -17,34 +17,7 @@ import (
 func init() {
 	Exec["bitmap.TailBitmap"] = func(a []V) string {
 		tb := bitmap.NewTailBitmap(a[0].I64())
-		out := make([]string, 0, len(a[1].L))
-		for _, c := range a[1].L {
-			var r uint64
-			switch c.L[0].Int() {
-			case 0:
-				tb.Set(c.L[1].I64())
-			case 1:
-				tb.Compact()
-			case 2:
-				r = tb.Get(c.L[1].I64())
-			case 3:
-				r = tb.Get1(c.L[1].I64())
-			case 4:
-				from, to := c.L[1].I64(), c.L[2].I64()
-				for idx := from; idx < to; idx++ {
-					tb.Set(idx)
-				}
-			case 5:
-				from, to := c.L[1].I64(), c.L[2].I64()
-				for idx := to - 1; idx >= from; idx-- {
-					tb.Set(idx)
-				}
-			default:
-				panic("bad call")
-			}
-			out = append(out, L(I(tb.Offset), U64s(tb.Words), U(r)))
-		}
-		return L(out...)
+		return L(c15Apply(tb, a[1].L)...)
 	}
 	Register("C15", genC15)
 }
@@ -537,4 +510,8 @@ func genC15(g *Gen) {
 			h.emit(g, fmt.Sprintf("back-to-front-%dw", nw))
 		}
 	}
+
+	// widened operations (harness/c15lit.go)
+	genC15Literal(g)
+	genC15Words(g)
 }
